@@ -32,6 +32,19 @@ add("C03", MC,
     "Trusted: refimpl::h3auto, simnet's model of QUIC stream semantics (RESET discards unread bytes). PUSH_PROMISE asserted for the server role only.",
     "stateless DFS over environment choices (chunk cuts, delays, schedule) with deviation bound, of the implementation against a reference automaton", "dfs", "DESIGN.md 5/C03")
 
+add("C11", EX,
+    "Complete enumeration of bounded input spaces of the real encode_stateless/decode_stateless: all byte strings up to 3 (4) bytes after five section prefixes, a structured set (every representation x every index boundary x N/H bits x string-length boundaries x every truncation x over-long integers), and field lists over every static-table name; judged by an independent RFC 9204 decoder/encoder, so symmetric deviations from the RFC are visible. Exhaustive over the stated sets.",
+    "Trusted: refimpl::qpack (static table typed from RFC 9204 App. A, self-tested on App. B), Huffman table from the octets crate.",
+    "exhaustive bounded input enumeration of the implementation against an independent reference codec", "enumeration", "DESIGN.md 5/C11")
+add("C15", EX,
+    "Complete enumeration: all byte strings of length <= 2 (3) through encode->decode, all Huffman-flagged payloads of 0..2 (3) bytes, every symbol followed by every padding length 0..15 and every bit pattern, EOS placements; integers for all prefix sizes 1..8 x all flags x boundary values x every continuation-byte sequence up to length 3 (4) over a 6-byte alphabet, over-long tails, every truncation. Oracle: bit-at-a-time RFC 7541 5.2 decoder + u128 integer codec.",
+    "Trusted: refimpl::{huffman,qint,qstr}; the Huffman table passes Kraft/canonical/Appendix-C self-checks on every run. Reached through the verif-hooks re-export.",
+    "exhaustive bounded input enumeration of the implementation against an independent reference codec", "enumeration", "DESIGN.md 5/C15")
+add("C18", EX,
+    "Complete enumeration: stream ids 4k for all k < 2^16 and every varint form boundary x payload lengths x EVERY consumption program (7 Buf operations, depth <= 4 (5)) over the encoded datagram; decode of all byte strings up to 2 (3) bytes plus every form of every boundary id and every truncation; and the same through DatagramSender/DatagramReader of real connections over simnet. Oracle refimpl::datagram.",
+    "Trusted: refimpl::datagram + refimpl::varint. Payload bytes are position-coded (the codec never branches on them).",
+    "exhaustive bounded enumeration of inputs and Buf consumption programs on the implementation, reference-model oracle", "enumeration", "DESIGN.md 5/C18")
+
 ALL = [f"C{i:02d}" for i in range(1, 21)]
 pending_reason = "check not built yet in this revision of /verif (planned, see DESIGN.md section 5)"
 manifest = dict(
@@ -41,7 +54,7 @@ manifest = dict(
         guard="cargo feature `verif-hooks` of the h3 crate",
         enable="the harness workspace depends on /repo/h3 by path with features=[\"verif-hooks\", ...]; ./check rebuilds it from the working tree on every run",
         baseline_off_cmd=BASELINE_CMD,
-        source_commits=[],
+        source_commits=["273b61f"],
         add_only=True,
     ),
     engines=[
